@@ -282,7 +282,10 @@ impl ParquetTable {
                 let ndv_est = if acc.has_int_stats {
                     match (acc.min_i64, acc.max_i64) {
                         (Some(min), Some(max)) if max >= min => {
-                            Some(non_null.min((max - min) as u64 + 1))
+                            // i128: a BIGINT column may span more than
+                            // i64::MAX (`max - min` overflows i64).
+                            let width = max as i128 - min as i128 + 1;
+                            Some(non_null.min(u64::try_from(width).unwrap_or(u64::MAX)))
                         }
                         _ => None,
                     }
